@@ -311,8 +311,8 @@ Proof.
   intros cp g p hist args j o Hg Hwt Hs. pose proof Hg as (Hinv & Hw & Hfs).
   destruct (xrun_event_ok cp g (XEGen p) Hg) as (_ & _ & O1 & _).
   remember (xrun_event cp g (XEGen p)) as g1 eqn:Eg1. cbn [xrun_event] in Eg1. unfold xgenerate in Eg1.
-  destruct (yields_run_iso 0 0 _ _ _ _ (generate_yields 0 0 cp (mkP (xp_defs p) (xp_body p)) (xg_heap g) Hinv) Hinv) as [[G _] Hq].
-  destruct (run_iso (xg_heap g) (sc_generate cp (mkP (xp_defs p) (xp_body p)))) as [h1 r]. cbn [fst snd] in *.
+  destruct (yields_run_iso 0 0 _ _ _ _ (generate_yields 0 0 cp (mkP (xp_defs p) (BZ ZThrow)) (xg_heap g) Hinv) Hinv) as [[G _] Hq].
+  destruct (run_iso (xg_heap g) (sc_generate cp (mkP (xp_defs p) (BZ ZThrow)))) as [h1 r]. cbn [fst snd] in *.
   unfold sp_xprog in Hs. unfold generated_ok in Hq. cbn [p_defs p_body] in Hq.
   destruct (sp_defs (xp_defs p) [] []) as [[cv zs]|]; [|discriminate].
   destruct r as [F|]; [|contradiction]. destruct Hq as (Hz & Hb & Hc).
@@ -345,7 +345,7 @@ Proof.
   pose proof (binds_rel_spec h2 (f_cs F) (xp_binds p) _ cvm _ E Tb) as B. unfold brel in B.
   destruct (pm_binds (mkXE (f_cs F) (f_zs F) os ms args) cvm (icontent h2) (xp_binds p)) as [[cs' zs']|],
            (sp_binds (mkXSE cv zs ov mv args) (xp_binds p)) as [[cv' zs'']|]; try contradiction; [|reflexivity].
-  destruct B as [-> <-]. unfold func_senv. cbn [f_cs f_zs]. reflexivity.
+  destruct B as [-> <-]. destruct (xp_body p) as [b|parts]; [|reflexivity]. unfold func_senv. cbn [f_cs f_zs]. reflexivity.
 Qed.
 
 Lemma mixed_generated_meets_spec_reachable_lemma : forall cp before p hist args j o, xprog_wt p = true ->
